@@ -23,13 +23,23 @@ def check(run):
         splits.append((files, desc))
     # same-named types in different files, referenced side by side
     same = []
-    for i in range(30 if quick else 400):
-        f1, f2 = r.sample(["lib/a", "lib/b", "x-y", "x_y", "m1", "deep/er/c"], 2)
-        t1, t2 = g.obj(2, []), g.obj(2, [])
-        files = [("entry.ts", 'import {X as X1} from "./%s"; import {X as X2} from "./%s";\nparse.buildParsers<{ P: X1, Q: X2 }>();' % (f1, f2)),
-                 (f1 + ".ts", "export type X = %s;" % tsgen.ts(t1)), (f2 + ".ts", "export type X = %s;" % tsgen.ts(t2))]
-        single = [("entry.ts", "export type X1 = %s;\nexport type X2 = %s;\nparse.buildParsers<{ P: X1, Q: X2 }>();" % (tsgen.ts(t1), tsgen.ts(t2)))]
-        same.append((single, files, f1, f2))
+    POOL = ["lib/a", "lib/b", "x-y", "x_y", "m1", "deep/er/c", "models/user", "models/admin", "user", "a/x", "a/y", "b/x", "b/y"]
+    LAYOUTS = [["models/user", "models/admin", "user"], ["a/x", "a/y", "b/x", "b/y"], ["a/x", "b/x", "a/y"], ["deep/er/c", "deep/c", "c"],
+               ["lib/a", "lib/b", "a"]]
+    for i in range(40 if quick else 500):
+        if i % 3 == 2:
+            fs = list(r.choice(LAYOUTS)); r.shuffle(fs)
+        else:
+            fs = r.sample(POOL, r.choice([2, 2, 3, 4]))
+        ts_ = [g.obj(2, []) for _ in fs]
+        names = ["P", "Q", "R", "S"][:len(fs)]
+        imports = " ".join('import {X as X%d} from "./%s";' % (k + 1, f) for k, f in enumerate(fs))
+        shape = ", ".join("%s: X%d" % (nm, k + 1) for k, nm in enumerate(names))
+        files = [("entry.ts", "%s\nparse.buildParsers<{ %s }>();" % (imports, shape))] + \
+                [(f + ".ts", "export type X = %s;" % tsgen.ts(t)) for f, t in zip(fs, ts_)]
+        single = [("entry.ts", "\n".join("export type X%d = %s;" % (k + 1, tsgen.ts(t)) for k, t in enumerate(ts_)) +
+                   "\nparse.buildParsers<{ %s }>();" % shape)]
+        same.append((single, files, fs, ""))
     # values: typeof of constants reached through default / named / namespace / re-exported bindings
     values = []
     for i in range(40 if quick else 500):
@@ -126,7 +136,7 @@ def check(run):
                 vals = items[2 * k][1][name]
                 j = next(x for x in range(len(va)) if va[x] != vb[x])
                 if kind == "same" and "identifier_collision_after_sanitising" in listed and \
-                        {same[i][2], same[i][3]} == {"x-y", "x_y"}:
+                        isinstance(same[i][2], list) and {"x-y", "x_y"} <= set(same[i][2]):
                     in_known["identifier_collision_after_sanitising"] += 1
                 else:
                     fails.append(("validators-differ-from-the-single-file-program",
@@ -140,14 +150,37 @@ def check(run):
     for files, rr in zip(unresolved, unres):
         if rr.get("outcome") != "diagnostics":
             fails.append(("unresolvable-reference-not-reported", {"files": dict(files), "outcome": rr.get("outcome"), "code": (rr.get("code") or "")[:300]}))
+    # ---- the identifiers of the emitted module vs Model/Names.v (ts_identifier over all named types of the project)
+    from checks.c01 import name_map
+    exprs, emeta = [], []
+    for which, rr, files in [("split", b, splits[i][0]) for i, b in enumerate(split_res)] + \
+                            [("same", b, same[j][1]) for j, b in enumerate(same_multi)]:
+        if rr.get("outcome") != "code": continue
+        keys = [k for k, _ in rr.get("named_ir") or []]
+        if not keys or any("<" in k or "::" not in k for k in keys): continue
+        nm = name_map(keys, rr["code"])
+        if nm is None: continue
+        addrs = [k.split("::", 1) for k in keys]
+        alls = "[" + "; ".join("mkAddr %s %s" % (coq_str(f), coq_str(n)) for f, n in addrs) + "]"
+        exprs.append('concat_str "," (map (fun a => ts_identifier a %s) %s)' % (alls, alls))
+        emeta.append((which, dict(files), keys, [nm[k] for k in keys]))
+    ident_disagree = []
+    for (which, files, keys, emitted), out in zip(emeta, common.run_coq_cases(IMPORTS, exprs, tag="C09")):
+        if out.split(",") != emitted:
+            ident_disagree.append({"files": files, "named_types": keys, "emitted_identifiers": emitted, "model_identifiers": out.split(",")})
+        if len(set(emitted)) != len(emitted) and not ("identifier_collision_after_sanitising" in listed and
+                                                     any(f.replace("-", "_") in [g_.replace("-", "_") for g_ in files if g_ != f] for f in files)):
+            fails.append(("two-named-types-share-one-identifier", {"files": files, "named_types": keys, "emitted_identifiers": emitted}))
     cov = run.coverage
     cov["evaluations"] = judged + len(unres)
     cov["distinct_nontrivial"] = sum(1 for k, _ in meta if k == "split")
     cov["rule"] = ("random programs split over 1-3 modules with named / type-only / namespace imports, renamed imports and export-star "
                    "barrels, compared with the single-file program on validate() over type-directed values; same-named types in two files "
                    "referenced side by side; unresolvable references must yield diagnostics")
-    cov["correspondence"]["Model/Names.v ts_identifier vs emitted identifiers"] = {"cases": 0, "disagreements": 0,
-        "note": "identifiers of the same-named stream are compared through validator behaviour; the model is exercised by the theorems' examples"}
+    cov["correspondence"]["Model/Names.v ts_identifier vs emitted identifiers"] = {
+        "cases": len(emeta), "disagreements": len(ident_disagree),
+        "distribution": {"projects with same-named types": sum(1 for w, _, _, _ in emeta if w == "same"),
+                         "files per same-named project": dict(collections.Counter(len(f) - 1 for w, f, _, _ in emeta if w == "same"))}}
     cov["spec_checks"]["multi-file project == single-file program"] = {
         "parsers_judged": judged, "unresolved_projects": len(unres),
         "failures": dict(collections.Counter(k for k, _ in fails)), "failures inside listed classes": dict(in_known),
@@ -171,6 +204,10 @@ def check(run):
         run.violation("proof", {"what": run.proof_broken, "theorems": THEOREMS}, no_input=not fails)
     for i, (kind, payload) in enumerate(fails[:5]):
         run.violation("spec-%d-%s" % (i, kind), dict(payload, clause=kind))
+    if ident_disagree and not fails:
+        run.violation("correspondence", {
+            "what": "correspondence stream 'Model/Names.v ts_identifier vs emitted identifiers' no longer checks (%d projects); no project "
+                    "behaving differently from its single-file program was found" % len(ident_disagree), "first": ident_disagree[0]}, no_input=True)
 
 
 def replay(d):
